@@ -210,6 +210,11 @@ package resolver
 //@   assert at call internal/dnsutil.FilterRRsToZone#1: arg0 == old(resp.Answer) && arg1 == zone
 //@   assert at store dns.Msg.Answer#1: value == lastret("internal/dnsutil.FilterRRsToZone") && calls("internal/dnsutil.FilterRRsToZone") == 1 && calls("(*middleware/resolver.Resolver).checkDname") == 0
 //@   assert at call (*middleware/resolver.Resolver).checkDname#1: calls("internal/dnsutil.FilterRRsToZone") == 1 && arg2 == resp
+//@   # C01: a non-empty answer section is followed, validated and returned only if it ANSWERS THE QUESTION - holds a
+//@   # record of the question's type or an alias; a genuine signed RRset of another type verifies but is no answer
+//@   assert at call (*middleware/resolver.Resolver).checkDname#1: calls("middleware/resolver.answersQuestion") == 0 || lastret("middleware/resolver.answersQuestion")
+//@   assert at call middleware/resolver.answersQuestion#1: arg0 == lastret("internal/dnsutil.FilterRRsToZone#1") && arg1 == req.Question[0]
+//@   possible at call middleware/resolver.answersQuestion#1: true
 //@   # C08: a DNAME target leg's outcome (records, rcode, denial) is adopted into the outer reply only after the outer
 //@   # reply was bound to the lease of the delegation the target leg was learned through - whatever the target
 //@   # contributed (answers, NXDOMAIN or an answer-less NODATA)
@@ -806,4 +811,13 @@ package resolver
 //@   nosafety all pre
 //@   assert at append#1: hdrOf(rr).Rrtype == dns.TypeOPT || lastret("internal/dnsutil.NameInZone")
 //@   assert at call internal/dnsutil.NameInZone#1: arg1 == z
+
+//@ # an answer section answers a question iff it holds a record of the question's type, a CNAME or a DNAME (any record,
+//@ # for type ANY)
+//@ func answersQuestion
+//@   requires forall i int :: {answer[i]} 0 <= i && i < len(answer) ==> answer[i] != nil
+//@   modifies nothing
+//@   loop 1 invariant 0 <= rangeidx && rangeidx <= len(answer) && forall j int :: {answer[j]} 0 <= j && j < rangeidx ==> hdrOf(answer[j]).Rrtype != q.Qtype && hdrOf(answer[j]).Rrtype != dns.TypeCNAME && hdrOf(answer[j]).Rrtype != dns.TypeDNAME && q.Qtype != dns.TypeANY
+//@   ensures !result ==> forall j int :: {answer[j]} 0 <= j && j < len(answer) ==> hdrOf(answer[j]).Rrtype != q.Qtype && hdrOf(answer[j]).Rrtype != dns.TypeCNAME && hdrOf(answer[j]).Rrtype != dns.TypeDNAME
+//@   ensures result ==> exists j int :: {answer[j]} 0 <= j && j < len(answer) && (hdrOf(answer[j]).Rrtype == q.Qtype || hdrOf(answer[j]).Rrtype == dns.TypeCNAME || hdrOf(answer[j]).Rrtype == dns.TypeDNAME || q.Qtype == dns.TypeANY)
 
